@@ -176,7 +176,7 @@ typedef struct {
 
 typedef struct {
         ISAL_MD5_MB_ARGS_X32 args;
-        uint32_t lens[ISAL_MD5_MAX_LANES];
+        DECLARE_ALIGNED(uint32_t lens[ISAL_MD5_MAX_LANES], 16);
         uint64_t unused_lanes[4]; //!< each byte or nibble is index (0...31 or 15) of unused lanes.
         ISAL_MD5_LANE_DATA ldata[ISAL_MD5_MAX_LANES];
         uint32_t num_lanes_inuse;
